@@ -272,7 +272,8 @@ const zeroArrPrefix = "zeroarr"
 func zeroCell(t types.Type) Cell {
 	switch u := t.Underlying().(type) {
 	case *types.Array:
-		if useFlat(u) {
+		if useFlat(u) || (flatArrays && u.Len() >= 256 && leafCount(u.Elem()) == 1) {
+			// (local scratch arrays of 256 or more scalars are symbolic arrays)
 			return &SymArrCell{Arr: FreshVar(zeroArrPrefix, SArr), N: ConstI(u.Len()), Elem: u.Elem()}
 		}
 		n := int(u.Len())
